@@ -26,7 +26,11 @@ def strategy(tier):
     general = graph.graph_case(max_tasks=8 if tier == "quick" else 12, outcomes="some", max_bad=2,
                             tape_max=50, tape_hi=31, p_par=0.875, p_seed_den=5,
                             jobs=(None, 1, 2, 2, 3, 3, 3, 4, 5))
-    return st.one_of(general, general, graph.layered_case(flags=("again",), p_fail_den=6))
+    # experiment-heavy graphs in which every second experiment is cached: chains of pruned tasks with shortcut edges
+    cached = graph.graph_case(max_tasks=8 if tier == "quick" else 12, outcomes="some", max_bad=2, kind_weights=(2, 6, 1, 0),
+                              tape_max=50, tape_hi=31, p_par=0.875, p_seed_den=2, densities=("dense", "sparse"),
+                              jobs=(None, 2, 3, 3, 4), flags=())
+    return st.one_of(general, general, cached, graph.layered_case(flags=("again",), p_fail_den=6))
 
 
 def examples(tier):
